@@ -1068,6 +1068,8 @@ fn change_case(s: &mut Sum, jobs: &mut Vec<Job>, case: &Value, expect: &str, swe
             "huge61" => 1 << 61,
             "b63" => 1 << 63,
             "max" => u64::MAX,
+            "fit4" => u64::MAX / 4,
+            "fit8" => u64::MAX / 8,
             o => panic!("class {o}"),
         };
         if nv == v {
